@@ -72,12 +72,17 @@ def apply_transform(kind, v):
   return TRANSFORMS[kind](v)
 
 
-def make_diag_phase(ctx):
-  """An earlier phase whose diagnoser yields R0: activates conditional validators."""
-  d = bodies.ScriptedPhaseDiagnoser(ctx, {'name': 'dpre', 'outs': [[[0, 0]]]})
+def make_diag_phase(ctx, internal=False, attach_names=()):
+  """An earlier phase whose diagnoser yields R0 (as a regular or as an internal diagnosis):
+  activates conditional validators."""
+  d = bodies.ScriptedPhaseDiagnoser(ctx, {'name': 'dpre', 'outs': [[[0, 0]]], 'internal': internal})
 
   def diagphase(test):
     ctx.ev('body_start', 'diagphase', 1)
+    # the same attachment names as the measuring phase uses, with other contents: attachment
+    # names are unique per phase record only
+    for n in attach_names:
+      test.attach(n, ('other phase, same name: ' + n).encode())
 
   return htf.diagnose(d)(diagphase)
 
